@@ -41,4 +41,10 @@ b9ca776 C15
 20600df C12
 95051d5 C12
 f4b7a44 C13
+1c0c9d7 C15
+3307a6c C15
+fbb6d81 C15
+bc0943e C13
+50f6a30 C10 C15
+baa8f99 C09 C15
 LIST
